@@ -1,4 +1,4 @@
-import ScVerif.C02.Lin
+import ScVerif.C02.Gen
 /-!
 # C02 — property theorems
 
@@ -229,6 +229,81 @@ theorem C02_linearizable (env : Env) (s₀ : SStore M) (progs : Nat → List (Op
     refine hd (by rw [← hlx, ← hly]) ?_ (by rw [hsame.1, hsame.2])
     cases hxc : x.committed <;> cases hyc : y.committed <;> simp_all
 
+/-- **The linearization respects real time step by step.**  `C02_linearizable` orders two refused calls of one
+linearization index arbitrarily; `C02_real_time` measures time in commit-log lengths, which do not separate calls
+that came and went while the log stood still.  Here time is the step counter itself (the finest real time a run
+has: `trun` is `run` with, on the side, the step `invT t n` at which call `n` of thread `t` was invoked and the step
+`respT t n` at which it responded).  For the arrangement in which refused calls of one index are listed as they
+responded (`c.refusedAt`, the one the driver prints and the harness certifies against real executions):
+1. `trun` computes exactly the configuration `run` computes;
+2. every finished call was invoked no later than it responded, at steps the run has executed, and its log-length
+   stamps are the log lengths at those very steps (`r.inv` when step `invT` began, `r.resp` when step `respT` ended);
+3. no call of the sequence responded before a call standing EARLIER in the sequence was invoked — i.e. whenever
+   call `a` responded (strictly) before call `b` was invoked, `a` stands before `b`.
+Together with `C02_linearizable` (for `arr := c.refusedAt`) this is linearizability in the textbook sense. -/
+theorem C02_linearization_respects_step_order (env : Env) (s₀ : SStore M) (progs : Nat → List (Op M))
+    (sched : List Nat) :
+    let c : Config M := (trun true env (initCfg s₀ progs) {} sched).1
+    let g : Times := (trun true env (initCfg s₀ progs) {} sched).2
+    c = run true env (initCfg s₀ progs) sched ∧
+    (∀ (t n : Nat) (r : Rec M), (c.threads t).done[n]? = some r →
+      g.invT t n ≤ g.respT t n ∧ g.respT t n < c.tick ∧
+      r.inv = g.lenAt (g.invT t n) ∧ r.resp = g.lenAt (g.respT t n + 1)) ∧
+    (∀ k k', k ≤ k' → k' ≤ c.tick → g.lenAt k ≤ g.lenAt k') ∧
+    (linSeq s₀ c.log c.refusedAt).Pairwise (fun x y => ¬ (g.respT y.tid y.idx < g.invT x.tid x.idx)) := by
+  intro c g
+  have hc : c = run true env (initCfg s₀ progs) sched := trun_fst true env _ _ sched
+  have ht : TInv c g := (TInv.init s₀ progs).run (LInv.init s₀ progs) true env sched
+  have h : Inv s₀ c := by rw [hc]; exact (Inv.init s₀ progs).run env sched
+  have hl : LInv c := by rw [hc]; exact (LInv.init s₀ progs).run true env sched
+  refine ⟨hc, ht.fin, ht.mono, ?_⟩
+  -- every event filed as refused stands for a finished refused call
+  have harr : ∀ k ev, ev ∈ c.refusedAt k → ev.lin = k ∧ ev.committed = false :=
+    fun k ev hev => ⟨(hl.sound k ev hev).1, (hl.sound k ev hev).2.1⟩
+  -- every event of the sequence stands for a finished call with that index; committed ones own a log entry
+  have hlin := C02_linearizable env s₀ progs sched
+  simp only [] at hlin
+  rw [← hc] at hlin
+  obtain ⟨_, _, sound, _, _⟩ := hlin c.refusedAt (fun k => List.Perm.refl _)
+  -- the relation, relativised to members of the sequence
+  have key : (linSeq s₀ c.log c.refusedAt).Pairwise (fun x y =>
+      x ∈ linSeq s₀ c.log c.refusedAt → y ∈ linSeq s₀ c.log c.refusedAt →
+        ¬ (g.respT y.tid y.idx < g.invT x.tid x.idx)) := by
+    -- if y responded before x was invoked, then in log time y.resp ≤ x.inv
+    have link : ∀ x y, x ∈ linSeq s₀ c.log c.refusedAt → y ∈ linSeq s₀ c.log c.refusedAt →
+        g.respT y.tid y.idx < g.invT x.tid x.idx →
+        ∃ rx ry : Rec M, (c.threads x.tid).done[x.idx]? = some rx ∧ (c.threads y.tid).done[y.idx]? = some ry ∧
+          rx.lin = x.lin ∧ ry.lin = y.lin ∧ (y.committed = true ↔ ry.kind = .committed) ∧ ry.resp ≤ rx.inv := by
+      intro x y hx hy hlt
+      obtain ⟨rx, hrx, _, _, _, hlx, _⟩ := sound x hx
+      obtain ⟨ry, hry, _, _, _, hly, hcy⟩ := sound y hy
+      obtain ⟨x1, x2, x3, _⟩ := ht.fin _ _ rx hrx
+      obtain ⟨_, _, _, y4⟩ := ht.fin _ _ ry hry
+      refine ⟨rx, ry, hrx, hry, hlx, hly, hcy, ?_⟩
+      rw [x3, y4]
+      exact ht.mono _ _ (by omega) (by omega)
+    apply pairwise_linSeq_of s₀ c.log c.refusedAt _ harr
+    · -- one block: listed as they responded
+      intro k
+      refine (ht.ord k).imp_of_mem ?_
+      intro x y hx _ hxy hxm _ hlt
+      obtain ⟨rx, hrx, _⟩ := sound x hxm
+      have := (ht.fin _ _ rx hrx).1
+      omega
+    · intro x y hxy hxm hym hlt
+      obtain ⟨rx, ry, hrx, hry, hlx, hly, _, hle⟩ := link x y hxm hym hlt
+      obtain ⟨a1, _, _, _⟩ := (h.thr x.tid).recs x.idx rx hrx
+      obtain ⟨_, b2, _, _⟩ := (h.thr y.tid).recs y.idx ry hry
+      omega
+    · intro x y hxy _ hyc hxm hym hlt
+      obtain ⟨rx, ry, hrx, hry, hlx, hly, hcy, hle⟩ := link x y hxm hym hlt
+      obtain ⟨a1, _, _, _⟩ := (h.thr x.tid).recs x.idx rx hrx
+      obtain ⟨_, _, _, b4⟩ := (h.thr y.tid).recs y.idx ry hry
+      rw [hcy.mp hyc] at b4
+      have := b4.2.1
+      omega
+  exact key.imp_of_mem (fun hx hy hxy => hxy hx hy)
+
 /-- **Lost races are real.**  A call reports Aborted only when another call committed ON THE SAME ID inside
 its interval (or its id generator ran out of attempts), and a Delete gives up with Unavailable only after
 five different commits of other calls on its id landed inside its interval — one per invalidated attempt of
@@ -269,15 +344,18 @@ theorem C02_lost_races_are_real (env : Env) (s₀ : SStore M) (progs : Nat → L
 
 /-- **An uncontended call behaves sequentially.**  If no OTHER call commits on a call's id between its
 invocation and its response (calls on other ids may commit freely), then the call does not lose a race and
-reports exactly what the sequential specification reports on the contents at its invocation.  (Calls that
-generate their id are excluded: their id is not known at invocation.) -/
+reports exactly what the sequential specification reports on the contents at its invocation.  This includes
+calls that generate their id (`Add("")` with `WithGenIDIfAbsent`; the specification is then asked about the
+call with the id it was given): for those there is one more possible outcome, Aborted — the only way the model
+produces it without a rival commit on the id is an id generator that ran out of its ten attempts. -/
 theorem C02_uncontended_call_is_sequential (env : Env) (s₀ : SStore M) (progs : Nat → List (Op M))
     (sched : List Nat) :
     let c : Config M := run true env (initCfg s₀ progs) sched
-    ∀ (t n : Nat) (r : Rec M), (c.threads t).done[n]? = some r → opGen r.op = false →
+    ∀ (t n : Nat) (r : Rec M), (c.threads t).done[n]? = some r →
       (∀ k e, r.inv ≤ k → k < r.resp → c.log[k]? = some e → opId e.op = opId r.op → e.tid = t ∧ e.idx = n) →
-      r.kind ≠ .raced ∧ (specStep r.op (replay s₀ (c.log.take r.inv))).1 = r.res := by
-  intro c t n r hr hng halone
+      (r.kind ≠ .raced ∧ (specStep r.op (replay s₀ (c.log.take r.inv))).1 = r.res) ∨
+      (r.kind = .raced ∧ opGen r.op = true ∧ r.res = .error .aborted) := by
+  intro c t n r hr halone
   have h := (Inv.init s₀ progs).run env sched
   obtain ⟨h1, h2, h3, h4⟩ := (h.thr t).recs n r hr
   replace h3 : r.resp ≤ c.log.length := h3
@@ -293,18 +371,17 @@ theorem C02_uncontended_call_is_sequential (env : Env) (s₀ : SStore M) (progs 
   cases hk : r.kind with
   | committed =>
     rw [hk] at h4
-    refine ⟨by simp, ?_⟩
+    refine Or.inl ⟨by simp, ?_⟩
     rw [← h4.2.2.1]
     exact specStep_res_congr r.op hsame.symm
   | refused =>
     rw [hk] at h4
-    refine ⟨by simp, ?_⟩
+    refine Or.inl ⟨by simp, ?_⟩
     have := congrArg Prod.fst h4.1
     simp only [] at this
     rw [← this]
     exact specStep_res_congr r.op hsame.symm
   | raced =>
-    exfalso
     rw [hk] at h4
     simp only [] at h4
     have hno : ∀ (m : Nat) (ks : List Nat) (err : Err), r.res = .error err → 0 < m →
@@ -322,9 +399,9 @@ theorem C02_uncontended_call_is_sequential (env : Env) (s₀ : SStore M) (progs 
         rw [hres] at hv
         cases hv
     rcases h4 with ⟨hres, hg | ⟨ks, hks⟩⟩ | ⟨hres, ks, hks⟩
-    · rw [hng] at hg; cases hg
-    · exact hno 1 ks _ hres (by omega) hks
-    · exact hno 5 ks _ hres (by omega) hks
+    · exact Or.inr ⟨rfl, hg, hres⟩
+    · exact (hno 1 ks _ hres (by omega) hks).elim
+    · exact (hno 5 ks _ hres (by omega) hks).elim
 
 /-- **No lost update: the last successful writer's result is what is stored.**  If a call reported success and
 no later commit (in commit order) touches its id, then the stored value is exactly the value that call
@@ -493,6 +570,96 @@ theorem C02_no_lost_increment (s₀ : SStore Int) (progs : Nat → List (Op Int)
   apply hprog e.tid op' hop' (Or.inr _)
   rw [hfg, hop]; exact hid
 
+/-- **A generated id was free when it was handed out.**  Every finished call that generated its id and did not
+report Aborted was given an id that was absent from the contents at the instant of its invocation (the replay of
+the commit log as it stood then) — whatever the generator proposes, `Collection.genID` skips stored candidates
+under the read lock. -/
+theorem C02_generated_id_was_free (env : Env) (s₀ : SStore M) (progs : Nat → List (Op M)) (sched : List Nat) :
+    let c : Config M := run true env (initCfg s₀ progs) sched
+    ∀ (t n : Nat) (r : Rec M), (c.threads t).done[n]? = some r → opGen r.op = true → r.res ≠ .error .aborted →
+      r.inv ≤ c.log.length ∧ (replay s₀ (c.log.take r.inv)) (opId r.op) = none := by
+  intro c t n r hr hg hres
+  have h := (Inv.init s₀ progs).run env sched
+  have hgi := (GInv.init s₀ progs).run (Inv.init s₀ progs) env sched
+  obtain ⟨a, b, d, _⟩ := (h.thr t).recs n r hr
+  exact ⟨by have d' : r.resp ≤ c.log.length := d; omega, hgi.recs t n r hr hg hres⟩
+
+/-- **No lost increment, next to calls that generate their ids.**  On an `Int` counter that exists under id `i`,
+if every operation of every program that NAMES `i` is an unconditional read-modify-write `old ↦ old + δ` — the
+programs may contain any number of generate-id calls (`Add("")` with `WithGenIDIfAbsent`, with any options and
+any id generator, e.g. one that keeps proposing `i`) — then at every moment the stored value is the initial one
+plus the sum of the `δ` of the commit-log entries on `i`, which are, one for one, the increments that reported
+success (`C02_exactly_once`): a generated id never lands on the counter. -/
+theorem C02_no_lost_increment_next_to_generated_ids (s₀ : SStore Int) (progs : Nat → List (Op Int))
+    (sched : List Nat) (i : Nat) (v₀ : Int) (hpres : s₀ i = some v₀)
+    (hprog : ∀ t op, op ∈ progs t → opGen op = false → opId op = i → ∃ δ, op = incOp i δ) :
+    let c : Config Int := run true env (initCfg s₀ progs) sched
+    absS c.store i
+      = some (v₀ + ((c.log.filter (fun e => opId e.op == i)).map (fun e => incDelta e.op)).sum) ∧
+    ∀ e, e ∈ c.log → opId e.op = i → opGen e.op = false := by
+  intro c
+  have h := (Inv.init s₀ progs).run env sched
+  have hgi := (GInv.init s₀ progs).run (Inv.init s₀ progs) env sched
+  -- an entry on `i` that did not generate its id is an increment: it stands in a program under that very id
+  have nongen : ∀ (k : Nat) (e : Entry Int), c.log[k]? = some e → opId e.op = i → opGen e.op = false →
+      ∃ δ, e.op = incOp i δ := by
+    intro k e hk hid hng
+    obtain ⟨r, v, hr, _, hop, _⟩ := owner_of_entry h hk
+    have hmem : forget r.op ∈ (progs e.tid).map forget := by
+      have hacc := acc_run env s₀ progs sched e.tid
+      rw [← hacc]
+      have : r ∈ ((run true env (initCfg s₀ progs) sched).threads e.tid).done := List.mem_of_getElem? hr
+      simp only [List.map_append, List.mem_append, List.mem_map]
+      exact Or.inl (Or.inl ⟨r.op, ⟨r, this, rfl⟩, rfl⟩)
+    obtain ⟨op', hop', hfg⟩ := List.mem_map.mp hmem
+    have hngr : opGen r.op = false := by rw [hop]; exact hng
+    have hng' : opGen op' = false := by rw [← opGen_forget, hfg, opGen_forget]; exact hngr
+    rw [forget_of_not_gen hng', forget_of_not_gen hngr] at hfg
+    rw [← hop, ← hfg]
+    apply hprog e.tid op' hop' hng'
+    rw [hfg, hop]; exact hid
+  -- by induction on the log position: no entry on `i` generated its id (the counter has been there all along)
+  have allInc : ∀ (k j : Nat) (e : Entry Int), j < k → c.log[j]? = some e → opId e.op = i → opGen e.op = false := by
+    intro k
+    induction k with
+    | zero => intro j e hj; omega
+    | succ k ih =>
+      intro j e hj he hid
+      by_cases hjk : j < k
+      · exact ih j e hjk he hid
+      · have hjk' : j = k := by omega
+        subst hjk'
+        cases hg : opGen e.op with
+        | false => rfl
+        | true =>
+          exfalso
+          obtain ⟨r, v, hr, hlin, hop, hres⟩ := owner_of_entry h he
+          obtain ⟨a1, a2, a3, _⟩ := (h.thr e.tid).recs e.idx r hr
+          replace a3 : r.resp ≤ c.log.length := a3
+          have hfree := hgi.recs e.tid e.idx r hr (by rw [hop]; exact hg) (by rw [hres]; simp)
+          rw [hop, hid] at hfree
+          have hthere := present_persists s₀ c.log i 0 r.inv (Nat.zero_le _) (by omega)
+            (by simp [replay, hpres])
+            (by
+              intro k' e' d _ hk' he' hdel hdid
+              have hid' : opId e'.op = i := by rw [hdel]; exact hdid
+              have hng := ih k' e' (by omega) he' hid'
+              obtain ⟨δ, hδ⟩ := nongen k' e' he' hid' hng
+              rw [hδ] at hdel
+              simp [incOp] at hdel)
+          rw [hfree] at hthere
+          simp at hthere
+  have noGen : ∀ (e : Entry Int), e ∈ c.log → opId e.op = i → opGen e.op = false := by
+    intro e he hid
+    obtain ⟨k, hk⟩ := List.getElem?_of_mem he
+    exact allInc (k + 1) k e (by omega) hk hid
+  refine ⟨?_, noGen⟩
+  rw [h.store, replay_incs s₀ c.log i ?_, hpres]
+  · rfl
+  · intro e he hid
+    obtain ⟨k, hk⟩ := List.getElem?_of_mem he
+    exact nongen k e hk hid (noGen e he hid)
+
 /-! ### The defect repaired by 41c35d0, on the model of the code as it was
 
 Before the fix the re-validation read of the create path returned the provisional `created` message
@@ -629,6 +796,57 @@ example :
     ((run true env₀ (initCfg (fun i => if i = 0 then some (7 : Int) else none)
         (fun t => if t < 2 then [addOp 1] else [])) [0, 1]).refusedAt 0).map (fun ev => (ev.tid, ev.idx, ev.res)) =
       [(0, 0, .error .alreadyExists), (1, 0, .error .alreadyExists)] := by
+  decide
+
+/-- step-level real time: two Adds of a present id, one after the other, both refused under linearization index 0
+while the log stands still; log-length stamps cannot order them (0 ≤ 0), the step stamps do, and the sequence
+lists them as they responded -/
+def twoRefused : Config Int × Times :=
+  trun true env₀ (initCfg (fun i => if i = 0 then some (7 : Int) else none) (fun t => if t < 2 then [addOp 1] else []))
+    {} [0, 1]
+
+example :
+    (twoRefused.2.invT 0 0, twoRefused.2.respT 0 0, twoRefused.2.invT 1 0, twoRefused.2.respT 1 0) = (1, 1, 2, 2) ∧
+    ((twoRefused.1.threads 0).done.map (fun r => (r.inv, r.resp))) = [(0, 0)] ∧
+    ((twoRefused.1.threads 1).done.map (fun r => (r.inv, r.resp))) = [(0, 0)] ∧
+    (linSeq (fun i => if i = 0 then some (7 : Int) else none) twoRefused.1.log twoRefused.1.refusedAt).map
+      (fun ev => (ev.tid, ev.idx)) = [(0, 0), (1, 0)] := by
+  decide
+
+/-- an increment that overlaps a Delete's retry: invocation and response steps, and the log lengths at those steps -/
+example :
+    let cg := trun true env₀ (initCfg (fun i => if i = 0 then some (7 : Int) else none)
+      (fun t => if t = 0 then [.del ⟨0, false, none, fun _ => none⟩] else if t = 1 then [incOp 0 1] else []))
+      {} [0, 1, 1, 1, 0, 0]
+    (cg.2.invT 0 0, cg.2.respT 0 0, cg.2.invT 1 0, cg.2.respT 1 0) = (1, 6, 2, 4) ∧
+    (List.range 8).map cg.2.lenAt = [0, 0, 0, 0, 0, 1, 1, 2] ∧ cg.1.tick = 7 := by
+  decide
+
+/-- a generator that keeps proposing the counter's own id: the generate-id Add gives up (Aborted), the increment
+next to it is kept — the hypotheses of `C02_no_lost_increment_next_to_generated_ids` are met by this program -/
+def genOnCounter : Config Int :=
+  run true ⟨fun _ => 0, fun _ _ => 0⟩ (initCfg (fun i => if i = 0 then some 100 else none)
+    (fun t => if t = 0 then [incOp 0 5] else if t = 1 then [genAdd 1] else [])) [0, 1, 0, 0]
+
+example :
+    (genOnCounter.threads 0).done.map (·.res) = [.ok (some 105)] ∧
+    (genOnCounter.threads 1).done.map (·.res) = [.error .aborted] ∧
+    absS genOnCounter.store 0 = some 105 ∧ genOnCounter.rng = 10 := by
+  decide
+
+example : ∀ t op, op ∈ (fun t => if t = 0 then [incOp 0 5] else if t = 1 then [genAdd 1] else []) t →
+    opGen op = false → opId op = 0 → ∃ δ, op = incOp 0 δ := by
+  intro t op hop hg hid
+  by_cases h0 : t = 0
+  · simp [h0] at hop; exact ⟨5, hop⟩
+  · by_cases h1 : t = 1
+    · simp [h1] at hop; rw [hop] at hg; simp [genAdd, opGen] at hg
+    · simp [h0, h1] at hop
+
+/-- the generated id 7 of `genRun` was free at the invocation of the call that took it -/
+example :
+    (genRun.threads 0).done.map (fun r => (opGen r.op, opId r.op, r.inv)) = [(true, 7, 0)] ∧
+    (replay (fun _ => (none : Option Int)) (genRun.log.take 0)) 7 = none := by
   decide
 
 end ScVerif.C02
